@@ -9,6 +9,7 @@ package main
 import (
 	"fmt"
 	"go/token"
+	"sort"
 	"strings"
 
 	"golang.org/x/tools/go/ssa"
@@ -64,56 +65,148 @@ func c10R4(c *Ctx) {
 
 // ---------------------------------------------------------------- R1
 
-var c10Inventory = []InvLine{
-	{Fn: "~/content/oci.ensureDir", Callee: "os.MkdirAll", Role: "directory creation (idempotent; an empty directory is a valid layout state)"},
-	{Fn: "(*~/content/oci.Store).ensureOCILayoutFile", Callee: "os.WriteFile", Role: "creates oci-layout when it does not exist (initialisation, see R2)"},
-	{Fn: "(*~/content/oci.Store).ensureOCILayoutFile", Callee: "(*os.File).Close", Role: "closes the read-only handle of oci-layout"},
-	{Fn: "(*~/content/oci.Store).loadIndexFile", Callee: "(*os.File).Close", Role: "closes the read-only handle of index.json"},
-	{Fn: "(*~/content/oci.Store).writeIndexFile", Callee: "os.WriteFile", Role: "writes index.json (see R2: in place — known finding D5)"},
-	// shape of the D5 repair (sibling temporary file renamed over index.json); R2 checks source and target of the rename
-	{Fn: "(*~/content/oci.Store).writeIndexFile", Callee: "os.CreateTemp", Role: "temporary sibling of index.json (replace-by-rename)"},
-	{Fn: "(*~/content/oci.Store).writeIndexFile", Callee: "(*os.File).Write", Role: "writes the temporary sibling"},
-	{Fn: "(*~/content/oci.Store).writeIndexFile", Callee: "(*os.File).Sync", Role: "flushes the temporary sibling"},
-	{Fn: "(*~/content/oci.Store).writeIndexFile", Callee: "(*os.File).Close", Role: "closes the temporary sibling"},
-	{Fn: "(*~/content/oci.Store).writeIndexFile", Callee: "(*os.File).Chmod", Role: "mode of the temporary sibling"},
-	{Fn: "(*~/content/oci.Store).writeIndexFile", Callee: "os.Chmod", Role: "mode of the temporary sibling"},
-	{Fn: "(*~/content/oci.Store).writeIndexFile", Callee: "os.Remove", Role: "cleanup of the temporary sibling (R2: never index.json itself)"},
-	{Fn: "(*~/content/oci.Store).writeIndexFile", Callee: "os.Rename", Role: "atomic replacement of index.json (R2)"},
-	{Fn: "(*~/content/oci.Storage).Push", Callee: "os.Rename", Role: "publication: verified ingest file -> blobs/<alg>/<hex>", Required: true},
-	{Fn: "(*~/content/oci.Storage).Push", Callee: "os.Remove", Role: "cleanup of the ingest file when the rename failed"},
-	{Fn: "(*~/content/oci.Storage).Delete", Callee: "os.Remove", Role: "removal of one blob", Required: true},
-	{Fn: "(*~/content/oci.Storage).ingest", Callee: "os.CreateTemp", Role: "temporary ingest file, outside blobs/", Required: true},
-	{Fn: "(*~/content/oci.Storage).ingest", Callee: "os.Chmod", Role: "read-only mode on the ingest file (not needed for crash safety)"},
-	{Fn: "(*~/content/oci.Storage).ingest$1", Callee: "(*os.File).Close", Role: "closes the ingest file"},
-	{Fn: "(*~/content/oci.Storage).ingest$1", Callee: "os.Remove", Role: "cleanup of the ingest file on failure"},
-	{Fn: "(*~/content/oci.Store).GC", Callee: "os.Remove", Role: "sweep of unreachable blobs", Required: true},
+// The inventory is keyed by the exported operation from which the effect is
+// reached (through unexported helpers and closures) and the resolved callee —
+// not by the unexported function that happens to contain the call, so moving
+// an effect into a helper does not change its key while a new effect of an
+// operation still does.  Effects issued by the function that writes
+// s.indexPath (role, not name) carry the prefix "index:".
+const (
+	c10opNew     = "~/content/oci.NewWithContext"
+	c10opSPush   = "(*~/content/oci.Storage).Push"
+	c10opSDelete = "(*~/content/oci.Storage).Delete"
+	c10opGC      = "(*~/content/oci.Store).GC"
+)
+
+var c10IndexOps = []string{c10opNew, "(*~/content/oci.Store).Push", "(*~/content/oci.Store).Tag", "(*~/content/oci.Store).Untag",
+	"(*~/content/oci.Store).Delete", "(*~/content/oci.Store).SaveIndex", c10opGC}
+
+func c10InventoryTable() []InvLine {
+	t := []InvLine{
+		{Fn: c10opNew, Callee: "os.MkdirAll", Role: "creates blobs/ (idempotent; an empty directory is a valid layout state)"},
+		{Fn: c10opNew, Callee: "os.WriteFile", Role: "creates oci-layout when it does not exist (initialisation, see R2)"},
+		{Fn: c10opNew, Callee: "(*os.File).Close", Role: "closes the read-only handles of oci-layout / index.json"},
+		{Fn: c10opSPush, Callee: "os.MkdirAll", Role: "creates the ingest and blobs/<alg> directories"},
+		{Fn: c10opSPush, Callee: "os.CreateTemp", Role: "temporary ingest file, outside blobs/", Required: true},
+		{Fn: c10opSPush, Callee: "os.Chmod", Role: "read-only mode on the ingest file (not needed for crash safety)"},
+		{Fn: c10opSPush, Callee: "(*os.File).Close", Role: "closes the ingest file"},
+		{Fn: c10opSPush, Callee: "os.Remove", Role: "cleanup of the ingest file on failure"},
+		{Fn: c10opSPush, Callee: "os.Rename", Role: "publication: verified ingest file -> blobs/<alg>/<hex>", Required: true},
+		{Fn: c10opSDelete, Callee: "os.Remove", Role: "removal of one blob", Required: true},
+		{Fn: c10opGC, Callee: "os.Remove", Role: "sweep of unreachable blobs", Required: true},
+	}
+	for _, op := range c10IndexOps {
+		t = append(t, InvLine{Fn: op, Callee: "index:os.WriteFile", Role: "writes index.json (see R2: in place — known finding D5)"})
+		// shape of the D5 repair (sibling temporary file renamed over index.json); R2 checks source and target of the rename
+		for _, callee := range []string{"os.CreateTemp", "(*os.File).Write", "(*os.File).WriteString", "(*os.File).Sync", "(*os.File).Close", "(*os.File).Chmod", "os.Chmod", "os.Remove", "os.Rename"} {
+			t = append(t, InvLine{Fn: op, Callee: "index:" + callee, Role: "replace-by-rename of index.json through a temporary sibling (R2)"})
+		}
+	}
+	return t
+}
+
+// c10Operations: the exported functions / methods of the package from which f
+// is reached through unexported helpers, closures and deferred calls (f itself
+// when it is exported).  An unexported function nobody calls is its own key.
+func c10Operations(p *Prog, f *ssa.Function) []*ssa.Function {
+	isOp := func(g *ssa.Function) bool {
+		return g.Parent() == nil && g.Object() != nil && g.Object().Exported()
+	}
+	callers := map[*ssa.Function][]*ssa.Function{}
+	for g := range p.All {
+		if fnPkgPath(g) != fnPkgPath(f) || len(g.Blocks) == 0 || (g.Synthetic != "" && !strings.HasPrefix(g.Synthetic, "instance of")) {
+			continue
+		}
+		AllInstrs(g, func(in ssa.Instruction) {
+			switch x := in.(type) {
+			case *ssa.MakeClosure:
+				callers[x.Fn.(*ssa.Function)] = append(callers[x.Fn.(*ssa.Function)], g)
+			case ssa.CallInstruction:
+				if h := StaticCallee(x); h != nil {
+					callers[h] = append(callers[h], g)
+				}
+				for _, a := range x.Common().Args {
+					if h, ok := a.(*ssa.Function); ok {
+						callers[h] = append(callers[h], g)
+					}
+				}
+			}
+		})
+	}
+	seen := map[*ssa.Function]bool{}
+	ops := map[*ssa.Function]bool{}
+	var up func(g *ssa.Function, d int)
+	up = func(g *ssa.Function, d int) {
+		if seen[g] {
+			return
+		}
+		seen[g] = true
+		if isOp(g) {
+			ops[g] = true
+			return
+		}
+		if d == 0 || len(callers[g]) == 0 {
+			if g == f || len(callers[g]) == 0 {
+				ops[g] = true
+			}
+			return
+		}
+		for _, cg := range callers[g] {
+			up(cg, d-1)
+		}
+	}
+	up(f, 5)
+	var out []*ssa.Function
+	for g := range ops {
+		out = append(out, g)
+	}
+	sort.Slice(out, func(i, j int) bool { return out[i].String() < out[j].String() })
+	return out
 }
 
 func c10R1(c *Ctx) {
 	const R1 = "C10.R1.fs-effect-inventory"
-	c.Expect(R1, 13)
+	c.Expect(R1, 19)
 	fns := c.P.FuncsOfPkg(c08Pkg)
 	if len(fns) == 0 {
 		c.LostAnchor(R1, "package ~/content/oci")
 		return
 	}
-	sites := Inventory(fns, func(n string) bool { return fsMutators[n] })
-	CheckInventory(c, R1, sites, c10Inventory)
-	// cleanup sites may only remove the ingest file, never the published blob
-	for _, s := range sites {
-		if s.Callee != "os.Remove" {
+	r := c08FindRoles(c, R1)
+	if r == nil {
+		return
+	}
+	raw := Inventory(fns, func(n string) bool { return fsMutators[n] })
+	var sites []EffectSite
+	opsOf := map[*ssa.Function][]*ssa.Function{}
+	for _, s := range raw {
+		if _, done := opsOf[s.Fn]; !done {
+			opsOf[s.Fn] = c10Operations(c.P, s.Fn)
+		}
+		callee := s.Callee
+		host := s.Fn
+		for host.Parent() != nil {
+			host = host.Parent()
+		}
+		if r.indexWriter[host] {
+			callee = "index:" + callee
+		}
+		for _, op := range opsOf[s.Fn] {
+			sites = append(sites, EffectSite{Fn: op, Call: s.Call, Callee: callee})
+		}
+	}
+	CheckInventory(c, R1, sites, c10InventoryTable())
+	// cleanup next to the publication may only remove the ingest file, never the published blob
+	for _, s := range raw {
+		if s.Callee != "os.Remove" || len(CallsTo(s.Fn, "os.Rename")) == 0 || len(c10IngestCalls(s.Fn)) == 0 {
 			continue
 		}
-		fn := FnName(s.Fn)
-		switch fn {
-		case "(*~/content/oci.Storage).Push":
-			var ing ssa.Value
-			for _, ic := range c10IngestCalls(s.Fn) {
-				ing = ResultOf(ic, 0)
-			}
-			ok := ing != nil && c09SameKey(s.Call.Common().Args[0], ing)
-			c.Check(R1, fn+"|os.Remove|removes-only-the-ingest-file", s.Call.Pos(), ok, ifelse(ok, "the cleanup removes the path returned by ingest", "the cleanup in Push removes something else than the ingest file"))
+		var ing ssa.Value
+		for _, ic := range c10IngestCalls(s.Fn) {
+			ing = ResultOf(ic, 0)
 		}
+		ok := ing != nil && c09SameKey(s.Call.Common().Args[0], ing)
+		c.Check(R1, c10opSPush+"|os.Remove|removes-only-the-ingest-file", s.Call.Pos(), ok, ifelse(ok, "the cleanup removes the path returned by ingest", "the cleanup in Push removes something else than the ingest file"))
 	}
 }
 
@@ -490,15 +583,33 @@ func c10R3DeleteGC(c *Ctx, R3 string, r *c08Roles) {
 		}
 		return
 	}
+	isRemoval := func(n string) bool {
+		return n == "os.Remove" || n == "os.RemoveAll" || n == "(*os.Root).Remove" || n == "(*~/content/oci.Storage).Delete"
+	}
+	mutates := func(g *ssa.Function) bool {
+		for _, x := range c09ReachableInPkg(g, 3) {
+			if len(c08Mutations(x, r)) > 0 {
+				return true
+			}
+		}
+		return false
+	}
 	for _, f := range c.P.FuncsOfPkg(c08Pkg) {
-		if ms, _ := mutationsOf(f); f.Signature.Recv() == nil || len(ms) == 0 {
+		if ms, _ := mutationsOf(f); len(ms) == 0 {
 			continue
 		}
 		var rm []ssa.Instruction
-		for _, call := range Calls(f, func(n string) bool {
-			return n == "os.Remove" || n == "os.RemoveAll" || n == "(*~/content/oci.Storage).Delete"
-		}) {
-			if _, isDefer := call.(*ssa.Defer); !isDefer {
+		for _, call := range Calls(f, func(string) bool { return true }) {
+			if _, isDefer := call.(*ssa.Defer); isDefer {
+				continue
+			}
+			if isRemoval(CalleeName(call)) {
+				rm = append(rm, call.(ssa.Instruction))
+				continue
+			}
+			// a helper that only removes (the extracted sweep): the call is the removal
+			if g := StaticCallee(call); g != nil && g != f && fnPkgPath(g) == pkgPath(c08Pkg) && len(g.Blocks) > 0 && !mutates(g) &&
+				reachesCall(g, 3, func(n string, _ ssa.CallInstruction) bool { return isRemoval(n) }) {
 				rm = append(rm, call.(ssa.Instruction))
 			}
 		}
@@ -519,7 +630,7 @@ func c10R3DeleteGC(c *Ctx, R3 string, r *c08Roles) {
 		for _, M := range muts {
 			M := M
 			mkCut := func() *cut {
-				ct := newCut().Edges(off...).Edges(c08InfeasibleAfter(M)...).Edges(savedOn[M]...)
+				ct := newCut().Edges(off...).Edges(c08InfeasibleAfter(M, r)...).Edges(savedOn[M]...)
 				c08SaveSuccessCut(f, r, ct)
 				return ct
 			}
